@@ -12,7 +12,7 @@ PROFILES = {
     "C08": dict(gen=dict(napps=2, nsides=2, steps=70), keys=("c08_survives_other_open", "c08_deleted_after_last_close")),
     "C12": dict(gen=dict(napps=2, nsides=3, steps=60), keys=("c12_must_survive",)),
     "C15": dict(gen=dict(napps=2, nsides=4, steps=70), keys=("c15_classified_mailbox", "c15_classified_nameplate"), usage_only=True),
-    "C17": dict(gen=dict(napps=2, nsides=3, steps=70, p_illegal=0.35, hostile=True),
+    "C17": dict(gen=dict(napps=2, nsides=3, steps=70, p_illegal=0.35, hostile=True, empty_side=True),
                 keys=("rejected_cmd",)),
     "C16": dict(gen=dict(napps=2, nsides=3, steps=60), keys=("c16_blur_bind", "c16_blur_mailbox-close"), blur_only=True),
 }
@@ -29,6 +29,8 @@ def jobs(pid, tier, seed):
         out.append({"kind": "directed", "name": name, "params": params})
     if pid == "C15":
         out.append({"kind": "classifier"})
+    if pid == "C16":
+        out += [{"kind": "crashimg", "seed": seed * 1000 + i} for i in range(16 if tier == "quick" else 200)]
     n = N_RANDOM[tier]
     for i in range(n):
         out.append({"kind": "random", "seed": seed * 1000003 + i})
@@ -98,9 +100,62 @@ def run_classifier_product(acc):
     acc.distinct.add("classifier-product")
 
 
+def run_c16_crash_images(acc, seed):
+    """C16 on crash images: records written by the sweep of a restarted server for objects left behind by a
+    crash at any commit boundary (e.g. a mailbox without side rows) must be blurred like any other."""
+    import random, os
+    from .c10 import Imager, copy_db_files
+    from ..engine import new_workdir, rmtree
+    from ..scenarios import HB, claimed
+    r = random.Random(seed)
+    blur = r.choice([7, 61, 300, 3600])
+    cfg = Config(usage=True, blur=blur)
+    b = HB()
+    b.adv(r.choice([1123.75, 7.125, 3599.875, 86399.5]))
+    for app in ("app", "app2"):
+        A = b.conn(app, "s1")
+        b.send(A, type="claim", nameplate="4")
+        b.adv(2.375)
+        B = b.conn(app, "s2")
+        b.send(B, type="allocate")
+        b.send(B, type="open", mailbox="mS." + app)
+        b.send(B, type="add", phase="p", body="c16-" + app)
+        b.send(A, type="release")
+        b.send(B, type="close", mood="happy")
+    root = new_workdir("c16i")
+    imager = Imager(os.path.join(root, "images"))
+    ex = Exec(cfg, seed=seed, track=False)
+    try:
+        ex.world.commit_hooks.append(imager)
+        ex.run(b.h)
+        imager.enabled = False
+    finally:
+        ex.close()
+    try:
+        for img in imager.images:
+            wd = new_workdir("c16r")
+            copy_db_files(img["dir"], wd)
+            ex2 = Exec(cfg, seed=seed, workdir=wd, t0=img["t"])
+            try:
+                ex2.start()
+                ex2.world.advance(1300.5)
+                base = {"property": "C16", "kind": "crashimg", "cfg": cfg.to_json(), "seed": seed, "case": "crashimg:%d@%d" % (seed, img["n"]),
+                        "history": b.h}
+                acc.cases += 1
+                acc.ev["c16_crash_image_swept"] += 1
+                acc.absorb_tracker(ex2.tracker, ex2.world, "crashimg:%d:%d" % (seed, img["n"]), base, ("c16_blur_pruned_row",))
+            finally:
+                ex2.close()
+                rmtree(wd)
+    finally:
+        rmtree(root)
+
+
 def run_job(pid, job, acc):
     if job["kind"] == "classifier":
         return run_classifier_product(acc)
+    if job["kind"] == "crashimg":
+        return run_c16_crash_images(acc, job["seed"])
     p = PROFILES[pid]
     if job["kind"] == "random":
         s = job["seed"]
@@ -117,5 +172,9 @@ def replay(pid, rep):
     if rep.get("kind") == "classifier":
         acc = Acc(pid)
         run_classifier_product(acc)
+        return acc
+    if rep.get("kind") == "crashimg":
+        acc = Acc(pid)
+        run_c16_crash_images(acc, rep["seed"])
         return acc
     return replay_history(rep, pid)
